@@ -20,6 +20,15 @@ claimed = {
  "C03": dict(design="5/C03",
    text="Bounded symbolic model checking of every store entry point with an arbitrary byte string as user name (optionally behind a prefix that reaches a sibling store), on a tree containing the store under test and a sibling store: invalid names fail or are no-ops and never authenticate; every open/create/rename/unlink/mkdir event of the modelled file system stays within <base>, <base>/.tmp and <base>/<valid>.user|.admin; the sibling store is byte-identical afterwards; invalid-named files never satisfy Check and are never listed.",
    note="Trusted: as C01, plus the engine-side confinement oracle over the vfs event trace (not natively observable; natively the sibling-snapshot oracle is used). Names longer than prefix + 3 (quick) / 5 (thorough) arbitrary bytes, symlinks and NAME_MAX are outside; frontends are covered by C04's wiring units."),
+ "C14": dict(design="5/C14",
+   text="Bounded symbolic model checking of the bytes written by AddUser/UpdateUser for stores whose default set has symbolic argon2id parameters (time, memory, threads) / scrypt parameters (cost, r, p incl. defaulted and negative r/p, arbitrary HMAC key): the file content is parsed by a reference splitter and compared field by field with the schema (format id, current unix time, default set id, canonical base64url), the digest with an independent recomputation through the x/crypto primitives, the salt with the structural freshness oracle, and every written byte with the secret-dependence walk.",
+   note="Trusted: UF idealisation (a digest computed from any other argument tuple differs), the engine-side structural oracles vpFreshBytes / vpSecretFree (natively replaced by trivially-true stubs, so counterexamples of those two assertions are model-level), symbolic clock. The YAML mapping of parameters is outside this check."),
+ "C15": dict(design="5/C15",
+   text="Bounded symbolic model checking of (a) UpdateUser / SetAdmin on records with arbitrary auxiliary bytes and a bystander file: auxiliary data, extension, bystander and work area are preserved; (c) every read-only call (Authenticate incl. upgradeable hashes, Exists, List, ListFull, Check) emits no mutating file-system event and leaves the directory byte-identical.",
+   note="Trusted: as C01. Clause (b) of the property (single injected system-call failures) is not yet claimed: see DESIGN.md; frontends are covered through C04's wiring."),
+ "C16": dict(design="5/C16",
+   text="Bounded symbolic model checking of Check() against a reference predicate on every directory of up to 2 (quick) / 3 (thorough) entries drawn from a menu of valid/invalid names, files or sub-directories, supported/unsupported/empty contents, .tmp as directory or file, under every listing order; Init succeeds exactly on empty directories and yields a valid store; one arbitrary operation from a valid store preserves validity, never leaves two files for one user and leaves the work area empty.",
+   note="Trusted: as C01; listing order modelled as a free permutation. CLI exit-status wiring is outside this check."),
 }
 NA_DEFAULT = "check not built yet (framework under construction); see DESIGN.md section 5 for the plan"
 na_reason = {}
